@@ -954,6 +954,7 @@ func main() {
 	seed := flag.Int64("seed", 1, "PRNG seed")
 	count := flag.Int("n", 300, "number of cases per family")
 	e2e := flag.Int("e2e", 3, "number of end-to-end scenarios")
+	rec := flag.Int("rec", 2, "number of refresh-recovery scenarios")
 	flag.Parse()
 	r := rand.New(rand.NewSource(*seed))
 	out = bufio.NewWriterSize(os.Stdout, 1<<20)
@@ -961,5 +962,8 @@ func main() {
 	partA(r, *count)
 	for i := 0; i < *e2e; i++ {
 		runE2E(r, i)
+	}
+	for i := 0; i < *rec && frozenSeen < 3; i++ { // each frozen pool costs a 3s watchdog
+		runRecovery(r, i)
 	}
 }
